@@ -274,7 +274,9 @@ def step (st : St) (pre post : List String) : St × Verdict :=
               if kind = "a" then c.isNone else c = some (value.getD [])
           match truth with
           | none => .propfail s!"proof-forged-root-{cls}" line
-          | some false => if mv = verdict then .propfail s!"proof-forged-{cls}" line else .propfail s!"proof-forged-unmodelled-{cls}" line
+          | some false =>
+            if label.startsWith "forged.empty-store." then .propfail "forged-proof-accepted-empty-store" line
+            else if mv = verdict then .propfail s!"proof-forged-{cls}" line else .propfail s!"proof-forged-unmodelled-{cls}" line
           | some true =>
             -- an honest proof, or a valid proof re-used for another key about which it is also right
             if label = "honest" ∨ label = "altered-key" then (if mv = verdict then .ok else .diff s!"model={mv} impl={verdict}")
